@@ -62,6 +62,23 @@ CLAIMS = {
              "tuple of runs; the same tuples (and seeded random ones, with exactly representable maps for the adaptive strategies) are "
              "executed on the real code and TLC evaluates the relations directly on the recorded values in fixed point.",
         ref="DESIGN.md 4 (C07)", note=TB + "; relations judged at 1e-5 absolute"),
+    "C08": dict(
+        technique="TLA+ state machine of the Weaver (Weaver.tla) model-checked by TLC (invariants + action property over all histories up to a depth); TLC trace validation of replayed and random real histories",
+        text="TLC explores every sequence of up to 2 (quick) / 3 (thorough) operations over an alphabet of 26 concrete domain operations, "
+             "refusals and restore from two start series, followed by recreate + integral_match, checking working = reference while "
+             "unreshaped, the reference/original frames as an action property and P02 on the transformed averages; every maximal history is "
+             "replayed on a real Weaver with the state observed after each call, and TLC judges the recorded histories (and seeded random "
+             "ones of length 0..8 on random series): working = reference, reference' = F_op(previous reference) with the standalone "
+             "function, reference untouched by reshaping operations.",
+        ref="DESIGN.md 4 (C08)", note=TB + "; P08 clauses are judged on recorded series only, equality with the specification's state is drift"),
+    "C09": dict(
+        technique="TLA+ state machine of the Weaver (Weaver.tla) with well-formedness / frame clauses model-checked by TLC; TLC trace validation of real programs over the whole API incl. restore bisimulation pairs",
+        text="TLC checks well-formedness and the original/caller frames on the model and judges recorded programs of up to 10 operations "
+             "over the whole public API (all strategies, interpolation methods, list/array arguments): after every call the container "
+             "kinds, equal lengths, finiteness, strictly increasing abscissae, byte-identity of the caller's arrays and of the original; "
+             "and for restore_original the recorded state sequence of a suffix program on the restored object against the same suffix "
+             "on a fresh Weaver(get_original()).",
+        ref="DESIGN.md 4 (C09)", note=TB + "; preconditions of operations are decided by Weaver!OutOfScope; histories are not judged beyond an out-of-scope call"),
     "C10": dict(
         technique="TLA+ definition (Search.tla) + PlusCal transcription of the scans model-checked by TLC; TLC trace validation of replayed real calls",
         text="TLC proves the three two-pointer scans (PlusCal transcription) equal the declarative definition on every array/query "
@@ -103,6 +120,13 @@ CLAIMS = {
              "valid [i,j], the 2-D views and process.average; TLC judges the recorded results (NaN padding included) against the "
              "specification.",
         ref="DESIGN.md 4 (C17)", note=TB),
+    "C20": dict(
+        technique="TLA+ argument checks (Weaver!Rejects, function-level judges) with the frame condition as a TLC action property; TLC trace validation of refused real calls with bitwise before/after snapshots",
+        text="The specification decides which requests are invalid; TLC checks on the model that a refused operation leaves the state "
+             "unchanged after every explored history, and judges recorded real calls: each invalid-argument class (15 Weaver-level kinds "
+             "issued inside random valid histories, plus function-level and constructor / name refusals) must raise exactly ValueError and "
+             "leave working, reference and original series bitwise unchanged.",
+        ref="DESIGN.md 4 (C20)", note=TB),
 }
 
 NOT_YET = "check not built yet (work in progress); will be claimed when its TLA+ check exists"
